@@ -89,7 +89,7 @@ def run(scn):
 
     def nontrivial(h, cks):
         cur = scn["drive"].get("currents")
-        return ck.checked >= 3 and (cur is not None or scn["drive"]["field"]["kind"] not in ("zero", "const", "const_param"))
+        return ck.checked >= 3 and (cur is not None or scn["drive"]["field"]["kind"] not in ("zero", "const", "const_param", "plain"))
 
     return base.physics_run(scn, [ck], nontrivial, None, extra=lambda h, c: {"max_resid": ck.max_resid, "checked": ck.checked}, post=post)
 
